@@ -329,6 +329,11 @@ func NewRaft(
 
 // restore will recover any persisted state and initialize the node with it.
 func (r *Raft) restore() error {
+	// Whatever configuration this node had in memory is recomputed from the snapshot
+	// and the log. It must not be mistaken for a configuration found there.
+	r.configuration = nil
+	r.committedConfiguration = nil
+
 	if err := r.log.Open(); err != nil {
 		return fmt.Errorf("could not open log: %w", err)
 	}
@@ -1964,8 +1969,13 @@ func (r *Raft) applyLoop() {
 				// A configuration that removes this node makes it step down when it is
 				// applied, which fails whatever is pending. The change is committed at
 				// this point, so its future is taken first and resolved successfully.
-				responseCh := r.configurationResponseCh
-				r.configurationResponseCh = nil
+				// Only the entry of the pending change resolves its future: an older configuration
+				// entry that is applied while the change is pending leaves it pending.
+				var responseCh chan Result[Configuration]
+				if r.configuration != nil && entry.Index == r.configuration.Index {
+					responseCh = r.configurationResponseCh
+					r.configurationResponseCh = nil
+				}
 				r.applyConfiguration(entry.Data)
 				respond(responseCh, *r.configuration, nil)
 			case OperationEntry:
